@@ -73,9 +73,17 @@ func genCase(t *rapid.T) Case {
 	case 1:
 		c.Size = 1
 	case 9:
-		if vt.Thorough() {
+		// the sizes at which the code changes behaviour: the 1 MiB copy buffer of the
+		// OCI / file stores and the 4 MiB default limit of the file store's fallback
+		// and of in-memory metadata
+		switch rapid.IntRange(0, 11).Draw(t, "bigClass") {
+		case 3, 4:
 			c.Size = rapid.IntRange(1<<20-2, 1<<20+2).Draw(t, "bigSize")
-		} else {
+		case 5:
+			c.Size = 1<<20 + rapid.IntRange(3, 70000).Draw(t, "bigSize")
+		case 6, 7:
+			c.Size = rapid.IntRange(4<<20-2, 4<<20+2).Draw(t, "bigSize")
+		default:
 			c.Size = rapid.IntRange(30000, 70000).Draw(t, "bigSize")
 		}
 	default:
@@ -115,6 +123,15 @@ func genCase(t *rapid.T) Case {
 	}
 	// any reader may hand over its last bytes together with io.EOF (as net/http bodies do)
 	c.Reader.EOFWithData = rapid.IntRange(0, 3).Draw(t, "eofWithData") == 0
+	if c.Size >= 1<<20-2 {
+		// megabytes are not delivered a few bytes at a time
+		switch c.Reader.Kind {
+		case "bytewise", "zeroreads", "chunks":
+			c.Reader.Kind, c.Reader.Chunks = "whole", nil
+			c.Reader.EOFWithData = true
+		}
+		c.Reader.Step *= 65536
+	}
 	if c.Sink == "limit" {
 		c.Limit = rapid.IntRange(-1, 1).Draw(t, "limit")
 	}
@@ -412,6 +429,9 @@ func runCaseInner(c Case) (res vt.Result, fail *vt.Fail) {
 		vr := content.NewVerifyReader(mk(), desc)
 		var got []byte
 		buf := make([]byte, 1+c.Seed*3)
+		if len(b) >= 1<<20-2 {
+			buf = make([]byte, 4096*(1+c.Seed*3)) // (the loop below is bounded)
+		}
 		var rerr error
 		for i := 0; i < 1<<22; i++ {
 			n, err := vr.Read(buf)
@@ -617,6 +637,10 @@ func runStoreSink(ctx context.Context, c Case, desc ocispec.Descriptor, v verdic
 	}
 
 	limitRefuses := c.Sink == "limit" && desc.Size > int64(len(b)+c.Limit)
+	if c.Sink == "file-unnamed" && desc.Size > 4<<20 {
+		// the file store's fallback for unnamed content holds at most 4 MiB per blob
+		limitRefuses = true
+	}
 	exists, xerr := st.Exists(ctx, pushDesc)
 	if xerr != nil && v.prefixOK {
 		return res, vt.Failf("C05/exists-error", "Exists: %v", xerr)
